@@ -31,6 +31,14 @@ INPUTS = {
     "current_tpv.get('lat')": (-90.0, 90.0), "current_tpv.get('lon')": (-180.0, 180.0),
     "self._cluster.radius": (0.0, 1000.0),
 }
+# report.get('k') reads the same entry as report['k'] (and vice versa)
+for _k, _v in list(INPUTS.items()):
+    _m = re.fullmatch(r"(\w+)\['(\w+)'\]", _k)
+    if _m:
+        INPUTS.setdefault(f"{_m.group(1)}.get('{_m.group(2)}')", _v)
+    _m = re.fullmatch(r"(\w+)\.get\('(\w+)'\)", _k)
+    if _m:
+        INPUTS.setdefault(f"{_m.group(1)}['{_m.group(2)}']", _v)
 
 
 SCALAR_TAGS = {"builtin:bytes", "builtin:bytearray", "builtin:int", "builtin:str", "builtin:float", "builtin:bool"}
@@ -352,8 +360,8 @@ class Messages:
         out = []
         for fi in P.iter_funcs():
             src = fi.module.src
-            if f".{attr}[" not in src and f"{attr}[" not in src and "params[" not in src:
-                continue
+            if attr not in src:
+                continue          # cheap prefilter only: the module never mentions the message attribute
             fl = None
             for n in ast.walk(fi.node):
                 if isinstance(n, ast.Assign) and len(n.targets) == 1 and isinstance(n.targets[0], ast.Subscript):
@@ -521,28 +529,60 @@ def check_reads(ctx, M: Messages, kind: str, rule: str, readers: list) -> int:
 # dictionaries that reach a message through a request object (confirmed flows; each hop is re-verified on every run)
 # ---------------------------------------------------------------------------------------------------------------------
 APP = "applications.road_hazard_signalling_service"
+_DENM_TX = (f"{FAC}.decentralized_environmental_notification_service.denm_transmission_management."
+            "DecentralizedEnvironmentalNotificationMessage")
+# hops: ("kwarg", function, keyword name, value)  - the function passes `value` under that keyword to a constructor / call
+#       ("store", function, value)                - the function stores `value` at the alias path of the message
+# `{p}` in a value stands for any parameter of the function
 ALIASES = [
     # the EVA application keeps the DENM event position as a dict attribute and hands it on through DENRequest
     dict(kind="DENM", path=["denm", "management", "eventPosition"], owner=f"{APP}.emergency_vehicle_approaching_service.EmergencyVehicleApproachingService",
          attr="event_position",
-         hops=[(f"{APP}.service_access_point.DENRequest.with_emergency_vehicle_approaching", "event_position=service.event_position"),
-               (f"{FAC}.decentralized_environmental_notification_service.denm_transmission_management.DecentralizedEnvironmentalNotificationMessage.fullfill_with_denrequest",
-                "self.denm['denm']['management']['eventPosition']=request.event_position")]),
+         hops=[("kwarg", f"{APP}.service_access_point.DENRequest.with_emergency_vehicle_approaching", "event_position", "{p}.event_position"),
+               ("store", f"{_DENM_TX}.fullfill_with_denrequest", "{p}.event_position")]),
 ]
 RETURN_ALIASES = [
     # collision-risk warnings take the event position from ReferencePosition.to_dict()
     dict(kind="DENM", path=["denm", "management", "eventPosition"], func=f"{FAC}.local_dynamic_map.ldm_classes.ReferencePosition.to_dict",
-         hops=[(f"{APP}.service_access_point.DENRequest.with_collision_risk_warning", "event_position=event_position.to_dict()"),
-               (f"{FAC}.decentralized_environmental_notification_service.denm_transmission_management.DecentralizedEnvironmentalNotificationMessage.fullfill_with_collision_risk_warning",
-                "self.denm['denm']['management']['eventPosition']=request.event_position")]),
+         hops=[("kwarg", f"{APP}.service_access_point.DENRequest.with_collision_risk_warning", "event_position", "{p}.to_dict()"),
+               ("store", f"{_DENM_TX}.fullfill_with_collision_risk_warning", "{p}.event_position")]),
 ]
 
 
-def _verify_hops(ctx, hops):
-    for fq, text in hops:
-        fi = ctx.prog.func(fq)
-        if text not in norm(unparse(fi.node)):
-            raise AnalysisError(f"message flow changed: `{text}` no longer found in {fi.short()} (alias table in msgutil needs re-confirmation)")
+def _verify_hops(ctx, M, al):
+    """Each hop of a confirmed message flow is re-established from the program (expanded values, canonical comparison)."""
+    from .. import sem
+    P = ctx.prog
+    for hop in al["hops"]:
+        fi = P.func(hop[1])
+        fl = ctx.flows.get(fi)
+        params = [p for p in fi.params if p not in ("self", "cls")]
+        wanted = [hop[-1].replace("{p}", p) for p in params]
+        found = False
+        if hop[0] == "kwarg":
+            for c in P.calls_in(fi):
+                for kw in c.keywords:
+                    if kw.arg != hop[2]:
+                        continue
+                    try:
+                        x = fl.expand(kw.value, fl.state_at(c))
+                    except AnalysisError:
+                        continue
+                    if any(sem.same(x, w) for w in wanted):
+                        if "func" in al and isinstance(x, ast.Call):
+                            tq = {t.qual for t in P.call_targets(fi, kw.value, count=False) if isinstance(t, FuncInfo)} if isinstance(kw.value, ast.Call) else set()
+                            if tq and P.func(al["func"]).qual not in tq:
+                                continue
+                        found = True
+        else:
+            for s_ in M.stores(al["kind"]):
+                if s_.fi is fi and list(s_.path) == list(al["path"]):
+                    x = fl.expand(s_.value, fl.before[id(s_.stmt)])
+                    if any(sem.same(x, w) for w in wanted):
+                        found = True
+        if not found:
+            raise AnalysisError(f"message flow changed: {fi.short()} no longer passes `{hop[-1]}` on ({hop[0]}) "
+                                "- alias table in msgutil needs re-confirmation")
 
 
 def check_aliases(ctx, M: Messages, kind: str, rule_schema: str, rule_range: str) -> int:
@@ -554,7 +594,7 @@ def check_aliases(ctx, M: Messages, kind: str, rule_schema: str, rule_range: str
     for al in ALIASES:
         if al["kind"] != kind:
             continue
-        _verify_hops(ctx, al["hops"])
+        _verify_hops(ctx, M, al)
         ci = P.cls(al["owner"])
         t, _ = ck.descend(M.roots[kind], al["path"], None)
         if t is None:
@@ -595,7 +635,7 @@ def check_aliases(ctx, M: Messages, kind: str, rule_schema: str, rule_range: str
     for al in RETURN_ALIASES:
         if al["kind"] != kind:
             continue
-        _verify_hops(ctx, al["hops"])
+        _verify_hops(ctx, M, al)
         fi = P.func(al["func"])
         fl = ctx.flows.get(fi)
         t, _ = ck.descend(M.roots[kind], al["path"], None)
